@@ -51,10 +51,23 @@ fn occupied(o: &packed::CellOutput, data_len: usize) -> u64 {
     bytes as u64 * 100_000_000
 }
 
+#[derive(Clone, Debug)]
+struct Cell {
+    cap: u64,
+    occ: u64,
+    /// carries the NervosDAO type script
+    dao: bool,
+    data: Vec<u8>,
+    /// height of the block that created it
+    born: usize,
+}
+
 struct Replay {
     blocks: Vec<RefBlock>,
-    /// out point -> (capacity, occupied)
-    live: HashMap<OutPoint, (u64, u64)>,
+    /// out point -> cell
+    live: HashMap<OutPoint, Cell>,
+    /// block hash -> height on the replayed chain
+    height: HashMap<packed::Byte32, usize>,
     /// shares the chain has provably not paid (known finding: block 1's own proposals)
     burned: u64,
     /// (C - S) - live capacity at genesis
@@ -97,7 +110,9 @@ fn replay_with(cons: &Consensus, chain: &[BlockView], tag: &str, label: &Value, 
     let delay = cons.finalization_delay_length() as usize;
     let ratio = (cons.proposer_reward_ratio().numer(), cons.proposer_reward_ratio().denom());
     let secondary_epoch = cons.secondary_epoch_reward().as_u64();
-    let mut r = Replay { blocks: vec![], live: HashMap::new(), burned: 0, base: 0 };
+    let mut r = Replay { blocks: vec![], live: HashMap::new(), height: HashMap::new(), burned: 0, base: 0 };
+    let dao_type_hash = cons.dao_type_hash();
+    let is_dao = |o: &packed::CellOutput| o.type_().to_opt().map(|t| t.code_hash() == dao_type_hash && t.hash_type() == ckb_types::core::ScriptHashType::Type.into()).unwrap_or(false);
     for (n, b) in chain.iter().enumerate() {
         // position of the block in its epoch (the header's epoch field is judged by C03 / C07); in the
         // flat worlds every epoch has EPOCH_LEN blocks, in the dynamic world the length doubles
@@ -111,16 +126,45 @@ fn replay_with(cons: &Consensus, chain: &[BlockView], tag: &str, label: &Value, 
         let mut commits = vec![];
         let mut added = 0u64;
         let mut freed = 0u64;
+        // NervosDAO interest paid out by this block's withdrawals
+        let mut interest = 0u64;
+        r.height.insert(b.hash(), n);
         for (ti, tx) in b.transactions().iter().enumerate() {
             let mut in_cap = 0u64;
             // (the genesis block only creates cells)
             let spends = ti > 0 && n > 0;
             if spends {
-                for i in tx.input_pts_iter() {
+                for (k, i) in tx.input_pts_iter().enumerate() {
                     match r.live.remove(&i) {
-                        Some((cap, occ)) => {
-                            in_cap += cap;
-                            freed += occ;
+                        Some(cell) => {
+                            let mut worth = cell.cap;
+                            // a withdrawing cell (NervosDAO type, 8 bytes of data naming a block number > 0)
+                            // is worth occupied + counted * AR(block that created it) / AR(deposit block); the
+                            // deposit block is the header dependency whose index the witness' input_type names
+                            if cell.dao && cell.data.len() == 8 && u64::from_le_bytes(cell.data[..].try_into().unwrap()) > 0 {
+                                let dep = tx
+                                    .witnesses()
+                                    .get(k)
+                                    .and_then(|w| packed::WitnessArgs::from_slice(&w.raw_data()).ok())
+                                    .and_then(|w| w.input_type().to_opt())
+                                    .map(|b| b.raw_data())
+                                    .filter(|b| b.len() == 8)
+                                    .map(|b| u64::from_le_bytes(b[..].try_into().unwrap()) as usize)
+                                    .and_then(|idx| tx.header_deps().get(idx))
+                                    .and_then(|h| r.height.get(&h).copied());
+                                match dep {
+                                    Some(d) if d < cell.born => {
+                                        let (ar_d, ar_w) = (r.blocks[d].dao.1, r.blocks[cell.born].dao.1);
+                                        let counted = cell.cap - cell.occ;
+                                        worth = cell.occ + (counted as u128 * ar_w as u128 / ar_d as u128) as u64;
+                                        interest += worth - cell.cap;
+                                        report.nontrivial.insert(fp(&(tag, n, "withdraw", d, cell.born)));
+                                    }
+                                    _ => report.violation("reference/withdraw-without-deposit-header", format!("{tag}: block {n} spends a withdrawing cell without naming an earlier main-chain deposit header"), label.clone()),
+                                }
+                            }
+                            in_cap += worth;
+                            freed += cell.occ;
                         }
                         None => report.violation("reference/unknown-input", format!("{tag}: block {n} spends a cell the replay does not know"), label.clone()),
                     }
@@ -132,7 +176,7 @@ fn replay_with(cons: &Consensus, chain: &[BlockView], tag: &str, label: &Value, 
                 let occ = occupied(&o, d.len());
                 out_cap += cap;
                 added += occ;
-                r.live.insert(OutPoint::new(tx.hash(), oi as u32), (cap, occ));
+                r.live.insert(OutPoint::new(tx.hash(), oi as u32), Cell { cap, occ, dao: is_dao(&o), data: d.to_vec(), born: n });
             }
             if spends {
                 commits.push((tx.proposal_short_id(), in_cap.saturating_sub(out_cap)));
@@ -155,7 +199,7 @@ fn replay_with(cons: &Consensus, chain: &[BlockView], tag: &str, label: &Value, 
             let miner_issuance = (g2 as u128 * pu as u128 / pc as u128) as u64;
             let c = pc + primary + g2;
             let ar = par + (par as u128 * g2 as u128 / pc as u128) as u64;
-            let s = ps + (g2 - miner_issuance); // no NervosDAO withdrawals in this universe
+            let s = (ps + (g2 - miner_issuance)).saturating_sub(interest);
             let u = pu + added - freed;
             (c, ar, s, u)
         };
@@ -174,10 +218,10 @@ fn replay_with(cons: &Consensus, chain: &[BlockView], tag: &str, label: &Value, 
         r.blocks.push(RefBlock { primary, g2, commits, proposals, dao: dao_of(b), miner_lock });
         if n == 0 {
             let (c, _, s, _) = dao_of(b);
-            r.base = (c - s) as i128 - r.live.values().map(|x| x.0 as i128).sum::<i128>();
+            r.base = (c - s) as i128 - r.live.values().map(|x| x.cap as i128).sum::<i128>();
         }
         // U equals the occupied capacity of the live-cell set
-        let live_occupied: u64 = r.live.values().map(|x| x.1).sum();
+        let live_occupied: u64 = r.live.values().map(|x| x.occ).sum();
         if live_occupied != dao_of(b).3 {
             report.violation("dao/U-vs-live-cells", format!("{tag}: block {n}: U = {}, the live cells occupy {}", dao_of(b).3, live_occupied), label.clone());
         }
@@ -219,7 +263,7 @@ fn replay_with(cons: &Consensus, chain: &[BlockView], tag: &str, label: &Value, 
         // first proposer is not finalised yet
         if n > 0 {
             let share = |fee: u64| (fee as u128 * ratio.0 as u128 / ratio.1 as u128) as u64;
-            let live_cap: u64 = r.live.values().map(|x| x.0).sum();
+            let live_cap: u64 = r.live.values().map(|x| x.cap).sum();
             let mut pending = 0u64;
             let first_unfinalised = (n + 1).saturating_sub(delay).max(1);
             for t in first_unfinalised..=n {
@@ -261,8 +305,8 @@ pub fn meta(_tier: Tier) -> Meta {
     Meta {
         id: "C06",
         level: "exploration",
-        rule: "flat world with 4-block epochs and a primary epoch reward that leaves a remainder; main chain of 22 blocks and a 10-block fork from block 6, built by the forge (ckb's calculators, every block fully verified as a tip). Assignments: a transaction proposed by two different blocks inside the window of its commit, proposed only through an uncle, committed at distance 2 and at distance 4, proposed - expired - proposed again - committed, two and three commits in one block, a child spending its parent's output in the next block, blocks proposing without any commit, fees from 1 shannon-odd values up to 0.5 CKB, outputs with data and type scripts (occupied capacity). Assignment family: three fee-paying transactions on a 13-block chain, every assignment of (first proposing block 2..4, a second proposer 1 or 2 blocks later or none, commit distance 2..4) for two of them x three assignments of the third (quick: 4 x 4 x 1). Unissuable-reward family (a world with a block reward of about 100 CKB): block 1 or block 2 names a miner lock whose cell needs 741 CKB, the finalising block must carry an output-less cellbase - the honest candidate must be accepted, four candidates creating capacity anyway (DAO field recomputed for each) must be refused, and the replay must see nothing paid. For EVERY block of EVERY chain an independent replay (plain integer arithmetic over a cell map, written from the issuance rules) must reproduce: cellbase capacity = primary(t) + g2(t)*U(t-1)/C(t-1) + sum(fee - floor(fee*4/10)) over t's commits + sum floor(fee*4/10) over commits in (t+close..t+far) whose first proposer inside their window is t, for t = n - 5 (nothing before block 6); cellbase lock = t's miner lock; DAO field (C, AR, S, U) = accumulation rule on the parent; U = occupied capacity of the live cells; live capacity + rewards and fee shares still to be paid = C - S.",
-        assumptions: &["no NervosDAO deposits / withdrawals (the world's genesis has no DAO script): the withdrawal formula is not exercised", "issuance halving and dynamic epoch lengths are C07's subject", "the genesis DAO field is the initial condition"],
+        rule: "flat world with 4-block epochs and a primary epoch reward that leaves a remainder; main chain of 22 blocks and a 10-block fork from block 6, built by the forge (ckb's calculators, every block fully verified as a tip). Assignments: a transaction proposed by two different blocks inside the window of its commit, proposed only through an uncle, committed at distance 2 and at distance 4, proposed - expired - proposed again - committed, two and three commits in one block, a child spending its parent's output in the next block, blocks proposing without any commit, fees from 1 shannon-odd values up to 0.5 CKB, outputs with data and type scripts (occupied capacity). Assignment family: three fee-paying transactions on a 13-block chain, every assignment of (first proposing block 2..4, a second proposer 1 or 2 blocks later or none, commit distance 2..4) for two of them x three assignments of the third (quick: 4 x 4 x 1). Unissuable-reward family (a world with a block reward of about 100 CKB): block 1 or block 2 names a miner lock whose cell needs 741 CKB, the finalising block must carry an output-less cellbase - the honest candidate must be accepted, four candidates creating capacity anyway (DAO field recomputed for each) must be refused, and the replay must see nothing paid. For EVERY block of EVERY chain an independent replay (plain integer arithmetic over a cell map, written from the issuance rules) must reproduce: cellbase capacity = primary(t) + g2(t)*U(t-1)/C(t-1) + sum(fee - floor(fee*4/10)) over t's commits + sum floor(fee*4/10) over commits in (t+close..t+far) whose first proposer inside their window is t, for t = n - 5 (nothing before block 6); cellbase lock = t's miner lock; DAO field (C, AR, S, U) = accumulation rule on the parent; U = occupied capacity of the live cells; live capacity + rewards and fee shares still to be paid = C - S. NervosDAO family (genesis keeps the always-success code at OUTPUT_INDEX_DAO under its own type script, so Consensus::dao_type_hash names a usable script): for every (deposit at d = 3..5, withdrawal request at d+3..d+5, withdrawal 3..5 blocks later) (quick: 6 triples) the three transactions are proposed and committed, the withdrawal pays out occupied + counted * AR_withdraw / AR_deposit (minus a fee in every second chain); a block whose withdrawal pays one shannon more must be refused by the node, the honest one accepted; a joint chain withdraws two deposits of different size and age in one transaction while a third stays deposited; the replay takes exactly the interest out of S and judges fees, rewards and conservation across the payout.",
+        assumptions: &["the NervosDAO type script is a stand-in that accepts everything: the node's consensus-level accounting (DaoCalculator) is judged, the on-chain script's own checks (lock period, deposit header number) are not", "issuance halving and dynamic epoch lengths are C07's subject", "the genesis DAO field is the initial condition"],
         bounds: json!({"main_chain_blocks": 22, "fork_blocks": 10}),
     }
 }
@@ -415,6 +459,9 @@ pub fn run(ctx: &Ctx) -> Report {
     if let Err(e) = dynamic_family(ctx, &mut report) {
         report.machinery_errors.push(format!("dynamic-epoch family: {e}"));
     }
+    if let Err(e) = dao_family(ctx, &mut report) {
+        report.machinery_errors.push(format!("NervosDAO family: {e}"));
+    }
     if let Err(e) = unissuable_family(ctx, &mut report) {
         report.machinery_errors.push(format!("unissuable-reward family: {e}"));
     }
@@ -547,5 +594,247 @@ fn dynamic_family(ctx: &Ctx, report: &mut Report) -> Result<(), String> {
     report.transitions += 36;
     report.outcomes.insert(fp(&"dynamic"));
     report.count("dynamic_epoch_chain_blocks", 36);
+    Ok(())
+}
+
+/// NervosDAO deposits and withdrawals.  The world's genesis keeps the always-success code at
+/// `OUTPUT_INDEX_DAO` under a type script of its own, so `Consensus::dao_type_hash` names a script
+/// that cells can carry: the node's consensus-level NervosDAO accounting (`DaoCalculator`: maximum
+/// withdraw = occupied + counted * AR_withdraw / AR_deposit, the interest taken out of S, the fee of
+/// a withdrawal) applies, while the script itself accepts everything (lock periods are the real
+/// script's business, not the node's).  Per chain: a deposit committed at height d, the withdrawal
+/// request (phase 1) at w1, the withdrawal (phase 2) at w2, for every (d, w1, w2) in a grid that
+/// crosses the epoch boundaries; the withdrawal pays out exactly the maximum (fee 0) or the maximum
+/// minus a fee; a block whose withdrawal claims one shannon more must be refused.  A joint chain
+/// withdraws two deposits of different ages in one transaction.  Every chain is replayed by the
+/// independent reference (S falls by exactly the interest, conservation holds across the payout).
+fn dao_family(ctx: &Ctx, report: &mut Report) -> Result<(), String> {
+    use ckb_types::bytes::Bytes;
+    use ckb_types::core::TransactionBuilder;
+    use ckb_types::packed::{CellInput, CellOutput};
+    let mut w = WorldOpts::default();
+    w.primary_epoch_reward = Some(PRIMARY);
+    w.dao_cell = true;
+    let cons = consensus(&w);
+    if cons.dao_type_hash() == packed::Byte32::zero() {
+        return Err("the world has no NervosDAO type hash".into());
+    }
+    set_time(time_for_height(90));
+    let mut forge = Forge::new(&ctx.scratch.join("c06-dao-forge"), &cons)?;
+    let g = genesis_cells(&cons);
+    let lock = always_success_lock();
+    let dao_type = dao_type_script(&cons);
+    let plain = |cap: u64| CellOutput::new_builder().capacity(Capacity::shannons(cap)).lock(lock.clone()).build();
+    let dao_out = |cap: u64| CellOutput::new_builder().capacity(Capacity::shannons(cap)).lock(lock.clone()).type_(Some(dao_type.clone()).pack()).build();
+    let base = || TransactionBuilder::default().cell_dep(always_success_dep(&cons)).cell_dep(dao_dep(&cons));
+    let deposit = |i: usize, amount: u64, fee: u64| -> TransactionView {
+        base()
+            .input(CellInput::new(g[i].0.clone(), 0))
+            .output(dao_out(amount))
+            .output_data(Bytes::from(vec![0u8; 8]).pack())
+            .output(plain(g[i].1 - amount - fee))
+            .output_data(Bytes::new().pack())
+            .build()
+    };
+    // phase 1 of several deposits at once: (deposit tx, amount, deposit block) each; fee from the payer cell
+    let phase1 = |deps: &[(&TransactionView, u64, &BlockView)], payer: usize, fee: u64| -> TransactionView {
+        let mut b = base();
+        for (d, amount, blk) in deps {
+            b = b.input(CellInput::new(OutPoint::new(d.hash(), 0), 0)).output(dao_out(*amount)).output_data(Bytes::from(blk.number().to_le_bytes().to_vec()).pack()).header_dep(blk.hash());
+        }
+        b.input(CellInput::new(g[payer].0.clone(), 0)).output(plain(g[payer].1 - fee)).output_data(Bytes::new().pack()).build()
+    };
+    // the reference value of a withdrawing cell
+    let worth = |amount: u64, deposit: &BlockView, withdraw: &BlockView| -> u64 {
+        let occ = occupied(&dao_out(amount), 8);
+        occ + ((amount - occ) as u128 * dao_of(withdraw).1 as u128 / dao_of(deposit).1 as u128) as u64
+    };
+    let phase2 = |p1: &TransactionView, deps: &[(&BlockView, &BlockView)], payout: u64| -> TransactionView {
+        let mut b = base();
+        let mut headers: Vec<packed::Byte32> = vec![];
+        for (k, (dblk, wblk)) in deps.iter().enumerate() {
+            for h in [dblk.hash(), wblk.hash()] {
+                if !headers.contains(&h) {
+                    headers.push(h);
+                }
+            }
+            let idx = headers.iter().position(|h| h == &dblk.hash()).unwrap() as u64;
+            let wit = packed::WitnessArgs::new_builder().input_type(Some(Bytes::from(idx.to_le_bytes().to_vec())).pack()).build();
+            b = b.input(CellInput::new(OutPoint::new(p1.hash(), k as u32), 0)).witness(wit.as_bytes().pack());
+        }
+        b.set_header_deps(headers).output(plain(payout)).output_data(Bytes::new().pack()).build()
+    };
+    let id = |t: &TransactionView| t.proposal_short_id();
+    let amount = 30_000 * 100_000_000u64 + 12_345;
+    let mut grid: Vec<(u64, u64, u64)> = vec![];
+    for d in 3..=5u64 {
+        for w1 in d + 3..=d + 5 {
+            for w2 in w1 + 3..=w1 + 5 {
+                grid.push((d, w1, w2));
+            }
+        }
+    }
+    let pick: Vec<(u64, u64, u64)> = if ctx.tier.is_thorough() { grid.clone() } else { vec![(3, 6, 9), (3, 8, 11), (4, 7, 12), (5, 10, 13), (4, 9, 14), (5, 8, 11)] };
+    let mut n_chains = 0u64;
+    for (ci, (d, w1, w2)) in pick.iter().copied().enumerate() {
+        if ctx.out_of_time() {
+            report.cap_hit = Some(format!("NervosDAO family: wall budget after {n_chains} chains"));
+            return Ok(());
+        }
+        let label = json!({"family": "nervos-dao", "deposit_at": d, "withdraw_request_at": w1, "withdraw_at": w2});
+        let fee2 = if ci % 2 == 0 { 0u64 } else { 1_000_007 };
+        let dep = deposit(ci % 4, amount + ci as u64, 500_003);
+        let amount = amount + ci as u64;
+        let mut chain = vec![cons.genesis_block().clone()];
+        let mut parent = cons.genesis_hash();
+        let mut p1: Option<TransactionView> = None;
+        let mut p2: Option<(TransactionView, TransactionView)> = None; // (honest, over-claiming)
+        let end = w2 + 7;
+        let mut ok = true;
+        for n in 1..=end {
+            let mut spec = BlockSpec { miner: (n % 5) as u8 + 1, ts_offset: 20 + ci as u64, ..Default::default() };
+            if n == d - 2 {
+                spec.proposals.push(id(&dep));
+            }
+            if n == d {
+                spec.txs.push(dep.clone());
+            }
+            if n == d + 1 {
+                p1 = Some(phase1(&[(&dep, amount, &chain[d as usize])], 4 + ci % 4, 700_001));
+            }
+            if n == w1 - 2 {
+                spec.proposals.push(id(p1.as_ref().unwrap()));
+            }
+            if n == w1 {
+                spec.txs.push(p1.clone().unwrap());
+            }
+            if n == w1 + 1 {
+                let max = worth(amount, &chain[d as usize], &chain[w1 as usize]);
+                let t = |payout: u64| phase2(p1.as_ref().unwrap(), &[(&chain[d as usize], &chain[w1 as usize])], payout);
+                p2 = Some((t(max - fee2), t(max + 1)));
+            }
+            if n == w2 - 2 {
+                let (h, o) = p2.as_ref().unwrap();
+                spec.proposals.push(id(h));
+                spec.proposals.push(id(o));
+            }
+            if n == w2 {
+                let (h, o) = p2.clone().unwrap();
+                // the over-claiming withdrawal must be refused
+                let mut bad = spec.clone();
+                bad.txs.push(o);
+                let cand = forge.build_on(&parent, &bad)?;
+                forge.known.remove(&cand.hash());
+                report.evaluations += 1;
+                report.transitions += 1;
+                match forge.node().process(&cand) {
+                    Err(_) => {
+                        report.nontrivial.insert(fp(&("dao-overclaim", d, w1, w2)));
+                    }
+                    Ok(_) => {
+                        report.violation("dao/withdrawal-overclaim-accepted", format!("block {w2} withdraws a deposit of {amount} shannons made in block {d} (withdrawal requested in block {w1}) and pays out one shannon more than occupied + counted * AR_withdraw / AR_deposit; it was accepted"), label.clone());
+                        return Ok(());
+                    }
+                }
+                spec.txs.push(h);
+                let honest = forge.build_on(&parent, &spec)?;
+                report.evaluations += 1;
+                match forge.node().process(&honest) {
+                    Ok(true) => {}
+                    other => {
+                        forge.known.remove(&honest.hash());
+                        report.violation("dao/withdrawal-refused", format!("block {w2} withdraws a deposit of {amount} shannons made in block {d} (withdrawal requested in block {w1}) paying out occupied + counted * AR_withdraw / AR_deposit - {fee2}; answered {:?}", other.map_err(|e| e.to_string())), label.clone());
+                        ok = false;
+                        break;
+                    }
+                }
+                parent = honest.hash();
+                chain.push(honest);
+                continue;
+            }
+            let b = forge.build_on(&parent, &spec)?;
+            parent = b.hash();
+            chain.push(b);
+        }
+        if ok {
+            forge.goto(&parent)?;
+            replay(&cons, &chain, "nervos-dao", &label, report);
+            report.transitions += end;
+            report.outcomes.insert(fp(&("dao", d, w1, w2)));
+        }
+        n_chains += 1;
+    }
+    // joint chain: two deposits of different sizes and ages, one withdrawal request for both, one
+    // withdrawal with two inputs (a witness and a deposit header each), a third deposit left in place
+    {
+        let label = json!({"family": "nervos-dao", "chain": "joint"});
+        let (a1, a2, a3) = (20_000 * 100_000_000u64 + 1, 41_000 * 100_000_000u64 + 77, 10_000 * 100_000_000u64);
+        let d1 = deposit(0, a1, 400_001);
+        let d2 = deposit(1, a2, 300_001);
+        let d3 = deposit(2, a3, 0);
+        let mut chain = vec![cons.genesis_block().clone()];
+        let mut parent = cons.genesis_hash();
+        let mut p1: Option<TransactionView> = None;
+        let mut p2: Option<(TransactionView, TransactionView)> = None;
+        let mut ok = true;
+        for n in 1..=20u64 {
+            let mut spec = BlockSpec { miner: (n % 5) as u8 + 1, ts_offset: 40, ..Default::default() };
+            match n {
+                2 => spec.proposals = vec![id(&d1), id(&d2), id(&d3)],
+                4 => spec.txs = vec![d1.clone()],
+                6 => spec.txs = vec![d2.clone(), d3.clone()],
+                7 => {
+                    p1 = Some(phase1(&[(&d1, a1, &chain[4]), (&d2, a2, &chain[6])], 5, 900_001));
+                    spec.proposals = vec![id(p1.as_ref().unwrap())];
+                }
+                9 => spec.txs = vec![p1.clone().unwrap()],
+                10 => {
+                    let max = worth(a1, &chain[4], &chain[9]) + worth(a2, &chain[6], &chain[9]);
+                    let t = |payout: u64| phase2(p1.as_ref().unwrap(), &[(&chain[4], &chain[9]), (&chain[6], &chain[9])], payout);
+                    p2 = Some((t(max - 2_000_003), t(max + 1)));
+                    let (h, o) = p2.as_ref().unwrap();
+                    spec.proposals = vec![id(h), id(o)];
+                }
+                13 => {
+                    let (h, o) = p2.clone().unwrap();
+                    let mut bad = spec.clone();
+                    bad.txs.push(o);
+                    let cand = forge.build_on(&parent, &bad)?;
+                    forge.known.remove(&cand.hash());
+                    report.evaluations += 1;
+                    if forge.node().process(&cand).is_ok() {
+                        report.violation("dao/withdrawal-overclaim-accepted", "joint withdrawal of two deposits paying out one shannon more than the sum of their maximum withdraws was accepted".to_string(), label.clone());
+                        return Ok(());
+                    }
+                    spec.txs.push(h);
+                    let honest = forge.build_on(&parent, &spec)?;
+                    match forge.node().process(&honest) {
+                        Ok(true) => {}
+                        other => {
+                            forge.known.remove(&honest.hash());
+                            report.violation("dao/withdrawal-refused", format!("joint withdrawal of two deposits paying out the sum of their maximum withdraws minus a fee: answered {:?}", other.map_err(|e| e.to_string())), label.clone());
+                            ok = false;
+                            break;
+                        }
+                    }
+                    parent = honest.hash();
+                    chain.push(honest);
+                    continue;
+                }
+                _ => {}
+            }
+            let b = forge.build_on(&parent, &spec)?;
+            parent = b.hash();
+            chain.push(b);
+        }
+        if ok {
+            forge.goto(&parent)?;
+            replay(&cons, &chain, "nervos-dao-joint", &label, report);
+            report.transitions += 20;
+            report.outcomes.insert(fp(&"dao-joint"));
+            n_chains += 1;
+        }
+    }
+    report.count("nervos_dao_chains", n_chains);
     Ok(())
 }
